@@ -163,6 +163,19 @@ let do_op (w : pg_doc * pg_doc) (f : string array) : (pg_doc * pg_doc) * string 
     | "fp" -> Some (PoFind (d, ni 2))
     | "mi" -> Some (PoMakeIndirect (d, value_of_text (unhex f.(2))))
     | _ -> None in
+  let nat k = nat_of_int (i k) in
+  let zi k = z_of_int (i k) in
+  let inplace =
+    match f.(0) with
+    | "mb" -> Some (PyEdit (d, ni 2, key_of_string "MediaBox", PeSetItem (nat 3, zi 4)))
+    | "rk" -> Some (PyEdit (d, ni 2, key_of_string "Resources", PeSetKey (key_of_string ("X" ^ f.(3)), zi 4)))
+    | "na" -> Some (PyEdit (d, ni 2, key_of_string "Annots", PeAppend (zi 3)))
+    | "kn" -> Some (PyKids (d, PkNull (nat 2)))
+    | "ks" -> Some (PyKids (d, PkSwap (nat 2, nat 3)))
+    | _ -> None in
+  match inplace with
+  | Some o -> let (w', r) = pgy_step w o in (w', (match r with PrOk -> "ok" | PrId j -> "ok:" ^ string_of_int (int_of_n j) | _ -> "ok:skip"))
+  | None ->
   match op with
   | None -> (w, "?op")
   | Some o ->
